@@ -3,7 +3,7 @@
 Simulated dimension: a re-entrancy schedule. The scenario decides which system, at which queue
 position and timestep, mutates the list the scheduler is walking; the recorded per-timestep
 history is checked against conditions (a)-(f) of DESIGN.md section 5/C05."""
-from .common import EqRec, Model, Rec, RefSched, SystemNotFoundError, gen_prio, gen_window, spec_defaults
+from .common import Model, Rec, RefSched, SystemNotFoundError, gen_flavour, gen_prio, gen_window, rec_class, spec_defaults
 
 PROPERTY = "C05"
 QUICK_RUNS = 24000
@@ -14,12 +14,12 @@ RULE = ("seeded re-entrancy schedules: 2-8 recording systems, 1-4 actor scripts 
         "effective mutation executed from inside a timestep while >=1 eligible system of the step's initial "
         "queue was still behind the actor; distinct = distinct abstract schedule shape (queue length, actor "
         "position, action kind, relative target position / priority relation per effective mutation)"
-        "; also: instance identity (id#generation), hot swap of an id, nested stepping of another model from inside a system, systems with value-based __eq__")
+        "; also: falsy systems (__len__ == 0 / __bool__ false), removal through the target's own clean_up(), instance identity (id#generation), hot swap of an id, nested stepping of another model from inside a system, systems with value-based __eq__")
 COMPONENTS = {"real": ["ECAgent.Core.SystemManager (add_system, remove_system, execute_systems)", "ECAgent.Core.Model",
                        "ECAgent.Core.System.clean_up"],
               "stub": ["System.execute bodies are harness recording systems driven by the scenario script"]}
 PROBES = ["actor_first", "actor_middle", "actor_last", "target_before", "target_self", "target_after",
-          "new_higher", "new_equal", "new_lower", "two_mutations_one_step", "hot_swap_same_id", "other_model_stepped_mid_timestep", "systems_with_value_equality"]
+          "new_higher", "new_equal", "new_lower", "two_mutations_one_step", "hot_swap_same_id", "other_model_stepped_mid_timestep", "systems_with_value_equality", "falsy_systems", "removed_via_targets_clean_up"]
 SHRINK_LISTS = ["scripts", "systems"]
 SHRINK_SKIP = ("end",)
 
@@ -46,7 +46,7 @@ def generate(rng, tier):
             if r < 0.2:
                 actions.append({"op": "remove_self"})
             elif r < 0.5:
-                actions.append({"op": "remove", "target": rng.choice(known)})
+                actions.append({"op": "remove", "target": rng.choice(known), "via": rng.choice(["id", "id", "clean_up"])})
             elif r < 0.9:
                 rel = rng.choice([1, 0, -1, rng.randint(-3, 3)])
                 p = prio_of[actor] + rel
@@ -70,7 +70,7 @@ def generate(rng, tier):
             else:
                 actions.append({"op": "remove", "target": f"ghost{rng.randint(0, 3)}"})
         scripts.append({"actor": actor, "t": t, "actions": actions})
-    return {"systems": systems, "scripts": scripts, "steps": steps, "value_eq": rng.random() < 0.12}
+    return dict({"systems": systems, "scripts": scripts, "steps": steps}, **gen_flavour(rng))
 
 
 class World:
@@ -88,13 +88,11 @@ class World:
         self.gen = 0
         self.spec_of = {}
         self.other = None
-        self.value_eq = bool(sc.get("value_eq"))
-        if self.value_eq:
-            ctx.probe("systems_with_value_equality")
+        self.rec_cls = rec_class(sc, ctx)
         self.uid_of = {}      # id -> uid of the currently registered instance
 
     def mk(self, spec):
-        o = (EqRec if self.value_eq else Rec)(spec, self.model, self)
+        o = self.rec_cls(spec, self.model, self)
         self.gen += 1
         o.uid = f"{spec['id']}#{self.gen}"       # instance identity: a re-registered id is a different system
         self.spec_of[o.uid] = spec
@@ -135,7 +133,13 @@ class World:
                 ctx.expect_raises("midstep-remove-unknown", SystemNotFoundError, sm.remove_system, tgt)
                 ctx.event("remove_rejected", tgt)
                 return
-            st, v = ctx.call(sm.remove_system, tgt)
+            if act.get("via") == "clean_up":      # an earlier/later system is asked to clean itself up
+                ctx.probe("removed_via_targets_clean_up")
+                got = sm[tgt]
+                ctx.check(got is self.objs[tgt], "registry", f"lookup of registered system {tgt} returned {got!r}")
+                st, v = ctx.call(got.clean_up)
+            else:
+                st, v = ctx.call(sm.remove_system, tgt)
             ctx.event("remove", tgt, st)
             if st != "ok":
                 ctx.fail("midstep-remove:unexpected-exception", f"{type(v).__name__}: {v}")
